@@ -188,6 +188,16 @@ def run(model: Model, rep: Report) -> None:
     # ---------------------------------------------------------------- R7
     _operand_safety(model, rep, spec)
     # ---------------------------------------------------------------- R8
+    # ---------------------------------------------------------------- R11: every content (page or form) starts from the initial state
+    r11 = rep.rule("C05-R11", "WRITESET", "render_contents: resources, then a fresh state (empty stacks, the given CTM also on the device, new text and graphics state, empty path), then execution of all streams", 2)
+    rc = model.func(PI + "PDFPageInterpreter.render_contents")
+    calls_rc = ["".join(unparse(s_.value).split()) for s_ in rc.node.body if isinstance(s_, ast.Expr) and isinstance(s_.value, ast.Call) and (dotted(s_.value.func) or "").startswith("self.")]  # type: ignore[attr-defined]
+    r11.check(calls_rc == ["self.init_resources(resources)", "self.init_state(ctm)", "self.execute(list_value(streams))"], site(rc), rc.qualname, "init_resources(resources); init_state(ctm); execute(list_value(streams))", why=f"{calls_rc}")
+    ist = model.func(PI + "PDFPageInterpreter.init_state")
+    ws = {k: "".join(unparse(v[0].value).split()) if isinstance(v[0], (ast.Assign, ast.AnnAssign)) and getattr(v[0], "value", None) is not None else "?" for k, v in self_fields_written(ist).items()}
+    want_ws = {"gstack": "[]", "ctm": "ctm", "textstate": "PDFTextState()", "graphicstate": "PDFGraphicState()", "curpath": "[]", "argstack": "[]"}
+    bad_ws = {k: ws.get(k) for k, v in want_ws.items() if ws.get(k) != v}
+    r11.check(not bad_ws and "self.device.set_ctm(self.ctm)" in "".join(unparse(ist.node).split()), site(ist), ist.qualname, "init_state: gstack = [], ctm = ctm (also handed to the device), fresh PDFTextState / PDFGraphicState, curpath = [], argstack = []", why=f"differs: {bad_ws}: state of the previous page or of the invoking content would leak into this one")
     from .interp import optional_number_truth_rule
 
     optional_number_truth_rule(model, rep, "C05-R10", [f for q, f in sorted(model.funcs.items()) if q.startswith("pdfminer.pdfinterp.PDFPageInterpreter.do_")], 8)
